@@ -55,6 +55,11 @@ class RemoteValueScaling(RemoteValue[int]):
             raise ConversionError(
                 f"Could not serialize {self.__class__.__name__}", value=value
             ) from err
+        if not 0 <= knx_value <= 255:
+            raise ConversionError(
+                f"Could not serialize {self.__class__.__name__}: value out of range",
+                value=value,
+            )
         return DPTArray(knx_value)
 
     def from_knx(self, payload: DPTArray | DPTBinary) -> int:
